@@ -34,7 +34,7 @@ TNext ==
        \* mechanism events of the compressor (hooks): judged by DynMechTrace, not by the contract
        [] e.ev = "Mech"  -> UNCHANGED <<cvars, viol, noted>>
        \* the worker process died or hung inside this case (recorded by the driver)
-       [] e.ev \in {"Crash", "Hang"} -> UNCHANGED cvars /\ RecBegin({"C16.nopanic", "C14.nopanic_on_failure", "C01.nocrash"})
+       [] e.ev \in {"Crash", "Hang"} -> UNCHANGED cvars /\ RecBegin({"C16.nopanic", "C14.nopanic_on_failure", "C01.nocrash"} \cup {e.clauses[i] : i \in DOMAIN e.clauses})
 
 TSpec == TInit /\ [][TNext]_tvars
 
